@@ -81,9 +81,31 @@ def scaling(prog, fn):
     return out
 
 
+def _val_record_reader(prog):
+    """VarFileValueCache::read_piece: by name, else the method (&mut self, value offset) -> Result<ValuePiece>."""
+    owner = "abyssiniandb::filedb::inner::val::VarFileValueCache"
+    c = [x for x in prog.fns.values() if x.impl_self_adt == owner and x.impl_trait is None]
+    named = [x for x in c if x.name == "read_piece"]
+    if len(named) == 1:
+        return named[0]
+    got = [x for x in c if len(x.inputs) == 2 and short(x.output).startswith("Result<ValuePiece") and short(x.inputs[1]).startswith("Offset<")]
+    if len(got) != 1:
+        raise IndexError("value record reader not found")
+    return got[0]
+
+
 def hash_fingerprint(prog):
     fp = {}
-    mix = prog.fns.get("abyssiniandb::_xorshift64s")
+    # the mixer: the lib function(s) the hasher's `write` calls (whatever they are named)
+    wr0 = [f for f in prog.fns.values() if f.crate == "abyssiniandb" and f.name == "write" and f.impl_trait == "core::hash::Hasher"]
+    mixers = []
+    if len(wr0) == 1:
+        for b, t in wr0[0].calls():
+            for x in prog.targets(t, wr0[0])[0]:
+                if x.crate == "abyssiniandb" and x.id not in [m.id for m in mixers]:
+                    mixers.append(x)
+    mixer_ids = {m.id for m in mixers}
+    mix = mixers[0] if len(mixers) == 1 else None
     if mix:
         ops = []
         for b, blk in enumerate(mix.blocks):
@@ -104,8 +126,9 @@ def hash_fingerprint(prog):
         for b, t in w.calls():
             c = t.get("callee") or ""
             nm = c.rsplit("::", 1)[-1]
-            if nm in ("chunks", "chunks_exact", "from_be_bytes", "from_le_bytes", "from_ne_bytes", "wrapping_add", "wrapping_mul", "rotate_left", "rotate_right", "_xorshift64s"):
-                ent = [nm]
+            is_mixer = any(x.id in mixer_ids for x in prog.targets(t, w)[0])
+            if is_mixer or nm in ("chunks", "chunks_exact", "from_be_bytes", "from_le_bytes", "from_ne_bytes", "wrapping_add", "wrapping_mul", "rotate_left", "rotate_right"):
+                ent = ["<mixer>" if is_mixer else nm]
                 for a in t["args"][1:]:
                     v = const_val(a)
                     if isinstance(v, int):
@@ -197,7 +220,7 @@ def fingerprint(prog):
         seq.sort(key=lambda x: len(f.dominators().get(x[0], ())))
         rec[kind + "_record"] = [[r, c] for b, r, c in seq]
         # the full-record reader consumes the same fields in the same order
-        rd = R.need("KEY_READ_PIECE") if kind == "key" else [x for x in prog.fns.values() if x.name == "read_piece" and x.impl_self_adt == "abyssiniandb::filedb::inner::val::VarFileValueCache"][0]
+        rd = R.need("KEY_READ_PIECE") if kind == "key" else _val_record_reader(prog)
         rseq = []
         for b, t in rd.calls():
             tg, _ = prog.targets(t, rd)
